@@ -31,6 +31,21 @@ FAIL_KEYS = ("user.name", "user.age", "user.tags", "user.address", "user.address
              "products.0", "products[0].title", "products[0].price", "h.a", "h.list",
              "products[0].meta", "user.first", "products[1].meta.k")
 
+# designed partial chains for the analysis twins (scopes of render / include / extends nest)
+AN_PARTIALS = {
+    "an/r1": "{% assign below1 = 1 %}{{ x }}{{ root_var }}{% include 'an/i1' %}{{ made_in_i1 }}",
+    "an/i1": "{% assign made_in_i1 = 2 %}{{ x }}{{ below1 }}{{ root_var }}{% render 'an/r2', y: below1 %}{{ user.name | upcase }}",
+    "an/r2": "{{ y }}{{ made_in_i1 }}{% for q in y %}{{ q.a | default: q }}{% endfor %}{% capture cap2 %}c{% endcapture %}",
+    "an/base": "<{% block b %}base{% endblock %}{{ setb }}{% include 'an/i1' %}>",
+    "an/child": "{% extends 'an/base' %}{% block b %}{{ inb }}{% assign setb = 1 %}{% render 'an/r1', x: inb %}{{ block.super }}{% endblock %}",
+}
+AN_MAINS = (
+    "{% assign root_var = 1 %}{% render 'an/r1', x: root_var %}{{ made_in_i1 }}{{ below1 }}{% include 'an/i1' %}{{ cap2 }}",
+    "{% include 'an/r1' with user as x %}{% for p in products %}{% render 'an/r2', y: p.tags %}{% endfor %}{{ y }}{{ p }}",
+    "{% extends 'an/child' %}{% block b %}{{ block.super }}{{ leaf }}{% include 'an/r1' %}{% endblock %}",
+    "{% macro m a, b: 1 %}{{ a }}{{ b }}{{ outer }}{% render 'an/r2', y: a %}{% endmacro %}{% call m user.name %}{% with w1: n %}{% include 'an/i1' %}{{ w1 }}{% endwith %}{{ w1 }}",
+)
+
 _CTS = None
 
 
@@ -213,11 +228,13 @@ def execute(plan: dict) -> dict:
         counters[k] = counters.get(k, 0) + n
 
     nontrivial = False
+    trace: list = []
     try:
         # reference: each op's sync twin alone on a world built afresh
         ref = []
         for op in plan["ops"]:
             ref.append(sync_op(World(plan), op))
+        trace.append(ref)
         for i, r in enumerate(ref):
             count("op:" + plan["ops"][i]["kind"])
             if r[0] == "ok":
@@ -227,6 +244,7 @@ def execute(plan: dict) -> dict:
         for pi, pol in enumerate(policies):
             segs.policy = pol
             got = run_async_world(plan, segs, sid=f"p{pi}")
+            trace.append([pol, got])
             for i, (a, b) in enumerate(zip(got, ref)):
                 if a != b:
                     raise Violation("twin_mismatch", op=i, policy=pol, opkind=plan["ops"][i]["kind"],
@@ -256,6 +274,7 @@ def execute(plan: dict) -> dict:
     counters["F2_data_fault_fired"] = counters.get("err:InjectedFault", 0)
     res = {
         "status": status,
+        "trace": digest(trace),
         "counters": counters,
         "sim_seconds": 0.0,
         "digest": digest([plan["cfg"], plan["programs"], plan["partials"], plan["ops"], segs.decisions]),
@@ -304,8 +323,13 @@ def gen_plan(seed: int, tier: str) -> dict:
     cases = cts_cases()
     r = rng.random()
     n_prog = rng.choice([1, 1, 2])
+    designed = rng.random() < 0.1
     for _ in range(n_prog):
-        if cases and r < 0.3:
+        if designed:
+            source = "designed-analysis"
+            partials.update(AN_PARTIALS)
+            progs.append({"src": rng.choice(AN_MAINS), "data": gprog.make_data(rng)})
+        elif cases and r < 0.3:
             source = "cts"
             case = rng.choice(cases)
             partials.update(case.get("templates") or {})
@@ -340,7 +364,7 @@ def gen_plan(seed: int, tier: str) -> dict:
     pkg_names = ["pk_one", "pk_child", "snippets/pk_card", "snippets/pk_line.html", "pk_bad", "pk_none"]
     for _ in range(k):
         pi = rng.randrange(len(progs))
-        kind = rng.choices(["render", "analyze", "helpers"], [7, 2, 1])[0]
+        kind = rng.choices(["render", "analyze", "helpers"], [2, 5, 3] if designed else [7, 2, 1])[0]
         op = {"kind": kind, "prog": pi}
         if contention and loader != "pkg":
             op = {"kind": "render", "name": cname, "globals": {"gv": f"G{len(ops)}"}}
